@@ -13,6 +13,8 @@ func main() {
 	switch os.Args[1] {
 	case "check":
 		checkMain(os.Args[2:])
+	case "rel":
+		relMain(os.Args[2:])
 	case "schema":
 		schemaMain(os.Args[2:])
 	default:
